@@ -2,7 +2,7 @@
 EXTENDS Guarded, TraceBase
 VARIABLE l
 TInit == l = 1 /\ InitWith(<<>>, [shared |-> FALSE, enabled |-> TRUE, loadshared |-> FALSE]) /\ TLCSet(1, 0)
-Skip == LifeKinds \cup {"blocked", "hget", "hrel", "hfree", "final", "starved"}
+Skip == LifeKinds \cup {"blocked", "hget", "hrel", "hfree", "final", "starved", "soloyield"}
 TNext ==
     /\ l <= Len(Tr)
     /\ l' = l + 1
